@@ -135,7 +135,7 @@ def random_mutations(rng, tx, names, n=None):
             else: muts.append(('wit_set', i, [rbytes(rng, rng.randrange(0, 80)).hex() for _ in range(len(st))]))
             continue
         if rng.random() < 0.15:
-            if no and rng.random() < 0.5: muts.append(('spk_app', rng.randrange(len(tx.outputs)), token(rng, names, big=False)))
+            if len(tx.outputs) and rng.random() < 0.5: muts.append(('spk_app', rng.randrange(len(tx.outputs)), token(rng, names, big=False)))
             else: muts.append(('sig_app', rng.randrange(len(tx.inputs)), token(rng, names, big=False)))
             continue
         if r < 0.2: muts.append(('seq', rng.randrange(ni), rbytes(rng, 4).hex()))
